@@ -56,11 +56,11 @@ func c03Gen(rng *rand.Rand, idx int) c03Scenario {
 	}
 	n := rng.IntN(7)
 	for i := 0; i < n; i++ {
-		k := pick(rng, []string{"early", "early", "early-stream", "late", "never", "edge-", "edge+", "edge0", "upgrade"})
+		k := pick(rng, []string{"early", "early", "early-stream", "early-refused", "late", "never", "edge-", "edge+", "edge0", "upgrade"})
 		f := c03Inflight{Kind: k}
 		d := sc.DrainTO
 		switch k {
-		case "early", "early-stream":
+		case "early", "early-stream", "early-refused":
 			if d < 4*Eps {
 				f.Kind, f.Fin = "late", d+time.Duration(300+rng.IntN(1000))*time.Millisecond+OffTarget
 			} else {
@@ -360,6 +360,11 @@ func c03Run(t *testing.T, run *Run, sc c03Scenario) {
 			r.Lat = f.Fin + lead - OffArrival
 			if r.Lat <= 0 {
 				r.Lat = 1
+			}
+			if f.Kind == "early-refused" {
+				// asks for a protocol upgrade; the target answers with an ordinary response (a refused
+				// WebSocket handshake, an ignored h2c attempt): an ordinary in-flight request
+				r.Mode = "upgrade-refused"
 			}
 			if f.Kind == "early-stream" {
 				// first part of a chunked response relayed at once, the rest at the natural finish
